@@ -122,8 +122,52 @@ def run(ctx, chk):
 
 # ------------------------------------------------------------------------------------------ key=value types
 
+MIRW = {}
+
+
+def mir_field(mir_paths, ai, ftys):
+    """(field, idiom) of placeholder argument `ai` from the MIR of Display::fmt, or (None, None)"""
+    rs = [args[ai] for facts, args in mir_paths if ai < len(args) and args[ai] is not None]
+    if not rs:
+        return None, None
+    fields = {r["field"] for r in rs if r["field"] is not None}
+    kinds = {r["kind"] for r in rs}
+    if kinds == {"display"} and len(fields) == 1:
+        return fields.pop(), "display"
+    if kinds == {"debug-upper"} and len(fields) == 1:
+        return fields.pop(), "debug-upper"
+    if kinds <= {"display", "literal"} and len(fields) == 1:
+        # optional value: a literal on the None path, the payload's Display on the Some path
+        f = next(iter(fields))
+        lits = {r["literal"] for r in rs if r["kind"] == "literal"}
+        if len(lits) == 1 and "Option" in ftys.get(f, ""):
+            return f, "option-sentinel:" + lits.pop()
+    if kinds == {"literal"}:
+        # a helper mapped an enum field to literals: recover field and variant from the path facts
+        table = {}
+        field = None
+        for facts, args in mir_paths:
+            if ai >= len(args) or args[ai] is None:
+                continue
+            for atom, pol in facts.order:
+                if atom[0] == "variant":
+                    t = atom[1]
+                    from ..tables import _self_field_places
+                    pl = _self_field_places(t) if isinstance(t, tuple) else []
+                    for v, fname, _ in pl:
+                        if fname in ftys and fname != field and field is None:
+                            field = fname
+                        if fname == field:
+                            table.setdefault(atom[2], set()).add(args[ai]["literal"])
+        if field is not None and all(len(v) == 1 for v in table.values()):
+            return field, "enum-literals:" + ";".join("%s=%s" % (k, next(iter(v))) for k, v in sorted(table.items()))
+    return None, None
+
+
 def check_kv(ctx, chk, db, W, ty, adt, ents, paths, fb):
     is_enum = adt["kind"] == "enum"
+    if ty not in MIRW:
+        MIRW[ty] = T.mir_writer_args(ctx, ty)
     for e in ents:
         variant = T.arm_variant(e.arm) if is_enum else None
         bind = T.arm_bindings(e.arm)
@@ -132,8 +176,11 @@ def check_kv(ctx, chk, db, W, ty, adt, ents, paths, fb):
         tag = e.template.split(":", 1)[0] if ":" in e.template else None
         phs = e.placeholders()
         wmap = {}
+        mir_paths = MIRW.get(ty, {}).get(e.callsite, [])
         for k, ai, trait, default, prev in phs:
-            field, idiom = T.arg_field(e.args[ai], bind) if ai < len(e.args) else (None, "missing-arg")
+            field, idiom = mir_field(mir_paths, ai, ftys)
+            if field is None:
+                field, idiom = T.arg_field(e.args[ai], bind) if ai < len(e.args) else (None, "missing-arg")
             if k is None or field is None:
                 chk.fail("X2", key + ":writer-shape", e.callsite, "cannot read key/field of placeholder after %r (argument %s)" % (prev, e.args[ai][:60] if ai < len(e.args) else "?"), undecided=True)
                 continue
@@ -208,6 +255,23 @@ def check_kv(ctx, chk, db, W, ty, adt, ents, paths, fb):
                         printed = v["name"].upper()
                         chk.require(printed in acc.get(v["name"], []), "X7", "%s:%s:%s" % (key, k, v["name"]), e.callsite,
                                     "%s::%s is written as %r (Debug upper-cased) but %s::from_str accepts %s for it" % (base, v["name"], printed, base, acc.get(v["name"])))
+                    chk.require("from_str" in calls, "X4", "%s:%s:conv" % (key, k), e.callsite, "field %s not read with %s::from_str" % (field, base))
+                elif idiom.startswith("enum-literals:"):
+                    base = strip_generics(t0).split("::")[-1]
+                    table = dict(x.split("=", 1) for x in idiom.split(":", 1)[1].split(";") if "=" in x)
+                    chk.require(trait == "Display" and default, "X4", "%s:%s:format" % (key, k), e.callsite, "key %s written with {:%s}" % (k, trait))
+                    rb = ctx.db.method(base, "from_str", trait="FromStr")
+                    rps, _ = T.reader_paths(ctx, rb)
+                    acc = {}
+                    for q in rps:
+                        acc.setdefault(q.variant, set()).update(l for l, _ in q.eq_true)
+                    up = any(q.uppercases() for q in rps)
+                    a2 = adt_of(db, base)
+                    for v in (a2["variants"] if a2 else []):
+                        printed = table.get(v["name"])
+                        okp = printed is not None and ((printed.upper() if up else printed) in acc.get(v["name"], set()))
+                        chk.require(okp, "X7", "%s:%s:%s" % (key, k, v["name"]), e.callsite,
+                                    "%s::%s is written as %r but %s::from_str accepts %s for it" % (base, v["name"], printed, base, sorted(acc.get(v["name"], []))))
                     chk.require("from_str" in calls, "X4", "%s:%s:conv" % (key, k), e.callsite, "field %s not read with %s::from_str" % (field, base))
                 elif idiom.startswith("option-sentinel:"):
                     sent = idiom.split(":", 1)[1]
@@ -430,7 +494,7 @@ def check_level(ctx, chk, db, W, ents, fb):
     chk.require(rkeys <= set(wkeys) and {"price", "orders"} <= rkeys, "X2", "PriceLevel", e.callsite,
                 "keys written %s; keys the parser consults %s (content = price + orders)" % (sorted(wkeys), sorted(str(k) for k in rkeys)))
     for r in oks:
-        pre = [pat_text(a[1][2][1]) for a, p in r.facts.order if a[0] == "truth" and p is True and isinstance(a[1], tuple) and a[1][0] == "call" and a[1][1].endswith("starts_with")]
+        pre = T.ReaderPath(r).prefixes
         chk.require(tag in pre, "X1", "PriceLevel", e.callsite, "Display writes tag %r, parser requires %s" % (tag, pre), describe_path(r))
         news = [ev for ev in r.trace if ev[0] == "call" and ev[1].endswith("PriceLevel::new")]
         okn = len(news) == 1
